@@ -96,9 +96,10 @@ func runHarness(ld *loaded, pkg *ssa.Package, hs harnessSpec, to tierOpts, known
 	if opts.maxFanout == 0 {
 		opts.maxFanout = 64
 	}
-	if to.TimeoutS > 0 {
-		opts.deadline = time.Now().Add(time.Duration(to.TimeoutS) * time.Second)
+	if to.TimeoutS == 0 {
+		to.TimeoutS = 1500 // never run unbounded: a truncated exploration is reported as inconclusive
 	}
+	opts.deadline = time.Now().Add(time.Duration(to.TimeoutS) * time.Second)
 	sh := newShared(ld, fn, hs.Func, opts, known, g.verbose)
 	t0 := time.Now()
 	sh.run()
